@@ -16,7 +16,7 @@ import vlib
 FNAME = "F"
 FINDING_CHAIN = "chaiscript_parser.hpp:left-deep-chain"
 FINDING_EXP = "chaiscript_parser.hpp:Container_Arg_List:exponential-backtracking"
-CONTAINER_NEST_CAP = 10      # `[`*n 1 `]`*n costs about 3^n steps (known finding FINDING_EXP): generated container nesting stays below
+CONTAINER_NEST_CAP = 8      # `[`*n 1 `]`*n costs about 3^n steps (known finding FINDING_EXP): generated container nesting stays below
 MAX_INPUT = 48000            # generated inputs are capped (the nesting families at depth 5000 are cut to this many bytes' worth)
 FLOAT_TOK = re.compile(r"k=c,(float|double|ldouble):f(32|64|80):([0-9a-f]+)$")
 MODEL_POW_ULP = 4       # spellings with an exponent go through libm's pow (see C16)
